@@ -232,7 +232,10 @@ for _c in list(_REG):
     _short = _c.name.split('/', 1)[1]
     if _c.prop == 'C11' and not _c.expect_fail and (not _c.bounded or _short.startswith('AggregatedFrame.roundtrip')) \
             and (_short.endswith('.encode') or _short.startswith('decode[') or _short.startswith('AggregatedFrame.')):
-        _c2 = _copy.copy(_c)
-        _c2.prop = 'C10'
-        _c2.name = 'C10/pdu.' + _short
-        _REG.append(_c2)
+        # ... and of every property stated above the PDU layer: C06 (SNEP/handover octets intact through I PDUs,
+        # also when the link aggregates them), C05 (I PDU payload and sequence fields), C17 (UI payload and addresses)
+        for _prop in ('C10', 'C06', 'C05', 'C17'):
+            _c2 = _copy.copy(_c)
+            _c2.prop = _prop
+            _c2.name = _prop + '/pdu.' + _short
+            _REG.append(_c2)
